@@ -182,6 +182,10 @@ def triage(prop, shard, res, known, row):
         row['verdict'] = 'NOT-REPRODUCED'
         return ('error', 'counterexample %r does not reproduce natively: %r (symbolic message: %s)' % (
             args, replay, res['message'][:300]))
+    if replay.get('outcome') == 'exception' and not (replay.get('site') or [None, None])[1]:
+        # no frame of the repository on the traceback: the harness itself failed
+        row['verdict'] = 'ERROR'
+        return ('error', 'exception raised by the harness, not by /repo: %s' % replay.get('trace', '')[-600:])
     match = findings.match(known, shard, args, replay)
     if match is not None:
         row['verdict'] = 'REFUTED-KNOWN'
